@@ -11,6 +11,9 @@ NOTE = ("Trusted: Coq 8.16.1 kernel + vm_compute (no native_compute; coqchk in t
         "implementation. Modelled-not-verified: CPython primitives, re, json, hashlib, sockets, threads, time (DESIGN.md sections 3-4).")
 
 CHECKS = {
+    'C15': dict(technique='Coq: subsequence theorem for every write-free program of OutputBuffer operations (induction over programs; insertion-sort lemma for sorted sections, String.leb transitivity proved), model tied to outputbuffer.py by random-program correspondence; oracle over all option sets, JSON variants and hash seeds',
+                text='Theorems: raising the minimum level yields a subsequence of the lower-level report for every program of lines/sections/heads/separators/sorted sections (also instantiated for code-point sorting); lines at or above the level are never removed; status is a function of items only. Refuted-and-recorded: immediate writes add a blank line. Oracle: status and findings identical under 2x2x2x3 option sets, JSON compact=indented=-l fail, JSON findings=text findings, byte identity across PYTHONHASHSEED values (observed, not proved).',
+                ref='DESIGN.md section 5 C15'),
     'C02': dict(technique='Coq: induction over all note sequences (status fold), report model status theorem; correspondence of the report model with output() by vm_compute case files; CLI oracle over TCP (healthy, broken-handshake and policy peers)',
                 text='Theorems: for every sequence/order of note levels the fold yields FAILURE iff a fail is present, WARNING iff warn without fail, GOOD iff neither; the status of the modelled report of ANY peer is the worst level among its items; policy verdict <-> status. Correspondence: model report (status+items) = real output() on generated peers. Oracle: real process exit status vs printed report under option sets; handshakes broken at each stage exit 1 with no algorithm report; built-in policy audits 0 iff Passed, 3 iff Failed. The incomplete-audit clause is proved in the C09 audit state machine.',
                 ref='DESIGN.md section 5 C02'),
